@@ -290,6 +290,8 @@ def mosaic_stream(ck, rng):
                   ('FITS plane ~900 px off', None, None)]
         off = wA_true.all_pix2world(511.0 + rng.uniform(-900, -700), 511.0 + rng.uniform(600, 900), 0)
         planes[2] = (planes[2][0], {'crval': (float(off[0]), float(off[1])), 'rot': rng.uniform(0, 360), 'scale': scale * 1.25}, None)
+        # the live corrector object of the first image itself (its WCS - hence the plane - changes during the call)
+        planes.append(('the live corrector object of image A', 'live-A', None))
         desc = {'stream': 'mosaic with expand_refcat', 'true_wcs_A': {'crval': list(map(float, wA_true.wcs.crval)), 'cd': wA_true.wcs.cd.tolist()},
                 'true_wcs_B': {'crval': list(map(float, wB_true.wcs.crval)), 'cd': wB_true.wcs.cd.tolist()},
                 'errors (dx px, dy px, drot deg, dscale) A, B': [list(eA), list(eB)],
@@ -302,6 +304,8 @@ def mosaic_stream(ck, rng):
             cBc = FITSWCSCorrector(with_error(wB_true, rotB, sclB, eB), meta={'catalog': Table([xb, yb], names=('x', 'y')), 'name': 'B'})
             if par is None:
                 plane, unit = None, float(np.sqrt(abs(np.linalg.det(cA.wcs.wcs.cd))))
+            elif par == 'live-A':
+                plane, unit = cA, float(np.sqrt(abs(np.linalg.det(cA.wcs.wcs.cd))))
             else:
                 plane = FITSWCSCorrector(A.mkwcs(crval=par['crval'], rot=par['rot'], scale=par['scale']))
                 unit = par['scale']
@@ -309,9 +313,13 @@ def mosaic_stream(ck, rng):
             ck.count('mosaic_plane', name)
             rp = dict(desc)
             rp['plane'] = {'name': name, 'parameters': par}
+            # with the live member as the plane the reference catalog is not expanded (it holds every source): the
+            # catalog object then lives through the whole call while its plane changes under it
+            live = par == 'live-A'
+            rows = np.arange(len(ra)) if live else ref_idx
             try:
-                align_wcs([cA, cBc], refcat=Table([ra[ref_idx], dec[ref_idx]], names=('RA', 'DEC')), ref_tpwcs=plane,
-                          expand_refcat=True, enforce_user_order=True, fitgeom='general', nclip=0, minobj=None,
+                align_wcs([cA, cBc], refcat=Table([ra[rows], dec[rows]], names=('RA', 'DEC')), ref_tpwcs=plane,
+                          expand_refcat=not live, enforce_user_order=True, fitgeom='general', nclip=0, minobj=None,
                           match=A.oracle_matcher(14.0 * scale / unit, seed=t))
             except Exception as e:   # noqa
                 rp.update(kind='alignment-raised', error=repr(e))
@@ -323,7 +331,7 @@ def mosaic_stream(ck, rng):
                 ck.violation(rp)
                 continue
             nmB = len(cBc.meta['fit_info'].get('matched_input_idx', []))
-            if nmB != n_ref_b + n_app_b:
+            if nmB != (len(ib) if live else n_ref_b + n_app_b):
                 ck.discard('mosaic: matcher did not return every true pair of the second image')
                 continue
             landA = float(np.max(W.sep_arcsec(*cA.det_to_world(xa, ya), ra[ia], dec[ia])))
